@@ -56,7 +56,109 @@ pub fn meta(prop: &str) -> Meta {
             outside: &["validate_num_of_signers for all u16 pairs is decided by the Kani kernel K6 (E2)", "n > 7 (10)", "symbolic identifiers"],
             ..base
         },
-        "C19" => Meta { dense_variant: Some(4), ..base },
+        "C02" => Meta {
+            functions: &["frost_core::round1::commit / Nonce::nonce_generate_from_random_bytes", "frost_core::round1::encode_group_commitments", "frost_core::SigningPackage::binding_factor_preimages", "frost_core::compute_binding_factor_list", "frost_core::compute_group_commitment", "frost_core::challenge", "frost_core::compute_lagrange_coefficient", "frost_core::round2::sign / compute_signature_share", "frost_core::aggregate", "frost_core::Signature::serialize", "frost_core::SigningKey::sign", "frost_core::VerifyingKey::verify", "frost_core::Identifier::try_from<u16> / serialize / deserialize / cmp"],
+            bounds: "differential against scen/src/spec.rs (RFC 9591 4.1-4.6, 5.2, 5.3), itself pinned to the RFC vectors of 5 suites (195 values) at every run. All (n,t) of the sweep; all signer subsets for default identifiers, 3 subsets for the other identifier sets (u16-extreme, pseudo-random full-width; + extreme scalars, non-contiguous, 3 seeds thorough); 4 message kinds; single-signer entry point; 14 boundary u16 identifiers. Participants are ordered for the oracle by numeric value, independently of Identifier::cmp.",
+            outside: &["that each crate's H1..H5 compute the RFC's hashes with the RFC's domain separation (pinned by the repository's own vectors)", "byte encodings of the real curves; u16->identifier for the dalek suites (Kani stalls)", "BIP-340 exactness is C18"],
+            ..base
+        },
+        "C03" => Meta {
+            functions: &["frost_core::round2::sign (threshold check)", "frost_core::aggregate_custom (share count check, verification)", "frost_core::keys::reconstruct", "frost_core::keys::split", "frost_core::keys::KeyPackage::new / PublicKeyPackage::new (lowered min_signers)"],
+            bounds: "all (n,t) of the sweep; every coalition of size 1..t-1 for default identifiers and n<=5, the first and last (t-1)-coalition otherwise; honest and lowered min_signers; three detection modes",
+            outside: &["computational unforgeability (rule GR shows the residual is affine with non-zero slope in a sharing coefficient nobody in the coalition holds)"],
+            ..base
+        },
+        "C04" => Meta {
+            functions: &["frost_core::aggregate_custom (Disabled / FirstCheater / AllCheaters)", "frost_core::detect_cheater", "frost_core::verify_signature_share", "frost_core::verify_signature_share_precomputed", "frost_core::round2::SignatureShare::verify", "frost_core::VerifyingKey::verify"],
+            bounds: "every signer's share replaced by a free adversarial value (one run covers every kind of wrong share); comparisons involving adversarial values fork: all 2^|S| honest/cheating patterns incl. cancelling errors; |S| <= 4 quick, <= 5 thorough; n <= 6; structural identifier-set mismatches",
+            outside: &["Taproot parity variants live in C18"],
+            ..base
+        },
+        "C05" => Meta {
+            functions: &["frost_core::round2::sign (own-entry checks)", "frost_core::verify_signature_share", "frost_core::aggregate / aggregate_custom", "frost_core::compute_binding_factor_list", "frost_core::compute_group_commitment (identity check)", "frost_core::challenge"],
+            bounds: "two concurrent sessions over the same key; every non-empty filling of the signer slots with the other session's shares; every single-field substitution in the verifier's package (message, each hiding/binding commitment, participant removed/added/replaced, group key); six signer-side refusal kinds; identity commitment in every slot and component; |S| <= 3 quick, <= 4 thorough, n <= 5",
+            outside: &["collision resistance of the real hashes"],
+            ..base
+        },
+        "C07" => Meta {
+            functions: &["frost_core::keys::dkg::part1", "part2", "part3", "compute_proof_of_knowledge", "verify_proof_of_knowledge", "PublicKeyPackage::from_dkg_commitments", "VerifyingShare::from_commitment", "sum_commitments", "evaluate_polynomial", "evaluate_vss", "then round1::commit / round2::sign / aggregate"],
+            bounds: "all (n,t) with n<=7; identifier sets default / u16-extreme / pseudo-random full-width (+ extreme, non-contiguous, 3 seeds thorough); every participant; first-t and last-t signing",
+            outside: &["the unspendable Taproot tweak of post_dkg is C18"],
+            ..base
+        },
+        "C08" => Meta {
+            functions: &["frost_core::keys::dkg::part2", "part3", "verify_proof_of_knowledge", "challenge (DKG)", "SecretShare::verify", "Error::culprits"],
+            bounds: "n <= 3 quick, <= 4 thorough, all t; every (receiver, sender) pair; 17 fault kinds + every commitment coefficient; control case without fault",
+            outside: &["zero-knowledge / soundness of the proof of knowledge beyond rule GR"],
+            ..base
+        },
+        "C09" => Meta {
+            functions: &["frost_core::keys::dkg::part2", "part3", "then round1::commit / round2::sign / aggregate on the joint result"],
+            bounds: "exhaustive: n=3 (quick), n in {3,4} (thorough), all t; two concurrent honest runs; per participant every {A,B,absent} assignment of the round-one slots and every {(run,addressee)} or absent filling of the round-two slots (225 resp. 9261 histories per participant); all 2^n common round-one sets for the joint-agreement clause",
+            outside: &["more than two concurrent runs; n > 4"],
+            ..base
+        },
+        "C10" => Meta {
+            functions: &["frost_core::keys::refresh::compute_refreshing_shares", "refresh_share", "refresh_dkg_part1", "refresh_dkg_part2", "refresh_dkg_shares", "frost_core::keys::reconstruct", "then signing"],
+            bounds: "n <= 6; every remaining set R with |R| >= t for default identifiers (minimal and full for pseudo-random ones); both procedures; refreshed twice on alternate cases; every proper old/new mix of the first t signers; 7 refusal kinds",
+            outside: &[],
+            ..base
+        },
+        "C11" => Meta {
+            functions: &["frost_core::keys::repairable::repair_share_part1", "compute_last_random_value", "repair_share_part2", "repair_share_part3", "frost_core::compute_lagrange_coefficient (at a point)", "then signing with the repaired share"],
+            bounds: "all (n,t) with t <= n-1; every helper set t <= |H| <= n-1 for default identifiers and n<=5 (minimal and maximal otherwise); every repaired identifier outside H, plus three new identifiers (u16, 4-limb, q-3); refusals",
+            outside: &[],
+            ..base
+        },
+        "C12" => Meta {
+            functions: &["serialize/deserialize and serde_json of SecretShare, KeyPackage, PublicKeyPackage (incl. pre-3.0 form), SigningNonces, SigningCommitments, SigningPackage, dkg round1::Package, round1::SecretPackage, round2::SecretPackage, round2::Package", "fixed-size: Identifier, SigningShare, VerifyingShare, VerifyingKey, SignatureShare, Nonce, NonceCommitment, CoefficientCommitment, Delta, Sigma, Signature, Randomizer, SigningKey, VerifiableSecretSharingCommitment (list and whole)", "frost_core::serialization::{Serialize, Deserialize, version_deserialize, ciphersuite_deserialize}"],
+            bounds: "E1 half: n <= 5, three identifier sets, symbolic payloads; header mutations (version byte, each of the 4 ciphersuite-id bytes), truncation, empty string, JSON with other suite id / version / unknown field; zero identifier, zero signing key. Canonicity of the real encodings is the E2 half.",
+            outside: &["point decoding of the real curves", "trailing bytes after a complete postcard package"],
+            ..base
+        },
+        "C13" => Meta {
+            functions: &["frost_core::keys::dkg::part2/part3 from restored round1/round2 SecretPackage", "refresh_dkg_part2 / refresh_dkg_shares from restored state", "round2::sign from restored SigningNonces / KeyPackage / SigningPackage", "aggregate with restored PublicKeyPackage", "refresh_share from restored state", "repair_share_part1 from restored KeyPackage", "serialize/deserialize + serde_json of each"],
+            bounds: "n <= 5, every participant (first and last for n>3 quick), binary and JSON; boundary grid {2,3,127,128,255,256,300,32768,65535}^2 for min_signers/max_signers of the stored packages",
+            outside: &[],
+            ..base
+        },
+        "C14" => Meta {
+            functions: &["round2::sign, aggregate_custom, verify_signature_share, batch::Verifier::verify", "SecretShare::verify, KeyPackage::try_from, reconstruct, PublicKeyPackage::from_commitment / from_dkg_commitments", "dkg::part2, dkg::part3", "compute_refreshing_shares, refresh_share, refresh_dkg_part2", "repair_share_part1/2/3", "deserialize of every package type on prefixes and single-byte mutations"],
+            bounds: "(n,t) in {(2,2),(3,2),(3,3)} (+(4,2),(4,3) thorough); empty / one-entry / oversized / duplicated / mutually inconsistent / equivocating-peer inputs; adversarial scalars and elements fork; catch_unwind with overflow checks and debug assertions on",
+            outside: &["dishonest own state", "byte strings beyond the E2 bounds", "third-party crates on well-typed input"],
+            ..base
+        },
+        "C15" => Meta {
+            functions: &["frost_core::round1::preprocess", "commit", "SigningNonces::new", "Nonce::new", "Nonce::nonce_generate_from_random_bytes", "NonceCommitment::from"],
+            bounds: "preprocess(k) for k in {0,1,2,3,4,17,32,33,64,65,127,128,255}; 1-3 consecutive commits; repeating and constant random sources; all share values and all source outputs symbolic",
+            outside: &["uniformity of the real suites' Field::random"],
+            ..base
+        },
+        "C16" => Meta {
+            functions: &["keys::generate_with_dealer", "keys::split", "keys::dkg::part1", "refresh::compute_refreshing_shares", "refresh::refresh_dkg_part1", "repairable::repair_share_part1", "frost_rerandomized::RandomizedParams::new_from_commitments", "SigningKey::new / sign", "batch::Verifier::verify"],
+            bounds: "all (n,t) of the sweep per entry point; repair with minimal and maximal helper sets; batch sizes 1-4 (1-8 thorough)",
+            outside: &[],
+            ..base
+        },
+        "C17" => Meta {
+            functions: &["frost_rerandomized::RandomizedParams::new_from_commitments / regenerate_from_seed_and_commitments / from_randomizer", "Randomizer::regenerate_from_seed_and_commitments", "sign_with_randomizer_seed", "sign (explicit randomizer)", "aggregate", "aggregate_custom", "Randomize for KeyPackage / PublicKeyPackage"],
+            bounds: "n <= 5; all subsets for n <= 3 and default identifiers, minimal and full otherwise; seed-based and explicit (free non-zero / zero) randomizers; participant view tampered in seed, participant set, each hiding/binding/whole commitment; one adversarial share per slot in the three detection modes; below-threshold refusals",
+            outside: &[],
+            ..base
+        },
+        "C20" => Meta {
+            functions: &["Debug for SigningKey, SigningShare, SecretShare, KeyPackage, SigningNonces, dkg::round1::SecretPackage, dkg::round2::SecretPackage, dkg::round2::Package"],
+            bounds: "debug-rendering half only (memory half is E2/K7): every listed type rendered with its secret scalars as tainted symbolic terms; no solver obligations in this half — decided by the executor's serialisation log and a search for the secrets' block encodings",
+            outside: &["contents of freed heap; compiler elision of zeroing stores"],
+            ..base
+        },
+        "C19" => Meta {
+            dense_variant: Some(4),
+            functions: &["frost_core::batch::Item::new", "Item::verify_single", "batch::Verifier::queue / verify", "frost_core::scalar_mul::VartimeMultiscalarMul (NAF width 5, positional and dense-constant mode)", "VerifyingKey::verify / verify_prehashed"],
+            bounds: "batch sizes 0..4 quick / 0..8 thorough; mixed keys (every second item shares the first key) and messages; every subset of altered responses (sizes <= 4; singles and all beyond), complementary pairs, wrong message / wrong key / altered commitment at every position; dense-constant runs with sampled full-width blinders and challenges (naf_dense_scalars_sampled)",
+            outside: &["batch sizes 9..64"],
+            ..base
+        },
         _ => base,
     }
 }
